@@ -120,6 +120,8 @@ def for_property(model: Model, pid: str, tier: str):
     obs = []
     for s in scenarios():
         if pid in s.props and pid != "C18":
+            if s.tier == "thorough" and tier != "thorough":
+                continue
             o, _ = run_scenario(model, s)
             obs += o
     return obs
@@ -130,6 +132,8 @@ def unification_obligations(model: Model, tier: str):
     obs = []
     seen = set()
     for s in scenarios():
+        if s.tier == "thorough" and tier != "thorough":
+            continue
         o, unis = run_scenario(model, s)
         # must-raise scenarios and analysis errors belong to C18 as well
         for ob in o:
